@@ -85,6 +85,9 @@ func TestMatrix(t *testing.T) {
 					{Kind: "call", Inst: 1, Fn: 1, Ops: []int{opNestPeer, opCallback | 1<<1 | 1, opLeaf}},
 					{Kind: "start", Inst: 1, Start: startSection, Ops: replaceSelf(ops)},
 					{Kind: "start", Inst: 0, Start: startExport, Ops: replaceSelf(ops)},
+					// the same CompiledModules once more, now with start functions that succeed
+					{Kind: "start", Inst: 1, Start: startSection, Ops: ok},
+					{Kind: "start", Inst: 0, Start: startExport, Ops: []int{opNestPeer, opLeaf}},
 					{Kind: "call", Inst: 1, Fn: 0, Ops: ok},
 					{Kind: "call", Inst: 0, Fn: 1, Ops: ok},
 				}}, "matrix:"+eng)
